@@ -13,6 +13,7 @@
  *   sign                        -> R sign ret=<r> v2=<two_resp_length> bt=<backtracking> hb=<chall_b|hint_b> hints=..
  *   verify                      -> R verify <0|1>         (last signature, current message, own public key)
  *   verify_msg <len> <mseed>    -> R verify_msg <0|1>     (last signature against another message)
+ *   verify_flip                 -> R verify_flip <0|1>    (last signature, current message with one bit flipped)
  *   otherkey                    generate a second key pair (pk2)
  *   verify_pk2                  -> R verify_pk2 <0|1>     (last signature, current message, other public key)
  *   tamper <field> <delta>      modify the last signature (field names below) -> R tamper ok
@@ -240,6 +241,17 @@ main(void)
             printf("R begin verify_msg\n");
             printf("R verify_msg %d\n", protocols_verif(&sig, &pk, m2, l2));
             free(m2);
+        } else if (!strncmp(line, "verify_flip", 11)) {
+            /* the current message with its first bit flipped (a different message of the same length) */
+            if (msglen == 0) {
+                printf("R verify_flip skipped\n");
+                continue;
+            }
+            msg[0] ^= 1;
+            fprintf(stderr, "drv-mark: verify_flip\n");
+            printf("R begin verify_flip\n");
+            printf("R verify_flip %d\n", protocols_verif(&sig, &pk, msg, msglen));
+            msg[0] ^= 1;
         } else if (!strncmp(line, "verify_pk2", 10)) {
             fprintf(stderr, "drv-mark: verify_pk2\n");
             printf("R begin verify_pk2\n");
